@@ -1,5 +1,175 @@
-(* placeholder: filled below *)
-From DS Require Import Base.Prelude Model.Cpc Model.CpcUnion.
+(* C06 -- CpcUnion = OR of the inputs' bit matrices, rows folded modulo the smallest lg_k.
+   Statements only; proofs are in Proofs/CpcUnion{Spec,Lemmas,Proofs,Laws}.v (on top of the C05 development).
+
+   Reading guide.
+   * Spec (Proofs/CpcUnionSpec.v).  A matrix is a function row -> 64-bit word; an input is (lg_k, matrix) and
+     is empty when its first 2^lg_k rows have no bit set.  [mfold lf lt M] folds the 2^lf rows of M modulo
+     2^lt (row r of the result = OR of the rows r, r + 2^lt, r + 2*2^lt, ...);  [mor] is the row-wise OR.
+     [uspec lg0 ins] applies the inputs one by one: an empty input is ignored, otherwise both sides are folded
+     to the smaller lg_k and OR-ed.  Its closed form (c06_spec_closed_form) is
+     ( lgmin = the smallest lg_k among the union and the NON-EMPTY inputs,  OR of every non-empty input folded to lgmin ).
+     [mbelow K A B]: A and B agree on the rows below K (all a K-row sketch can see).
+   * Model (Model/CpcUnion.v): union_new / union_update (reduce_k, cases A-D) / union_to_sketch mirror
+     cpc/union.rs;  [union_of lg0 sks] is CpcUnion::new(lg0) followed by update(sk) for every sketch of the list.
+   * [Vin s lg M]: s is a valid sketch of lg_k = lg representing M: the C05 invariant (Proofs/CpcStep.v, Inv)
+     plus 64-bit rows.  Every sketch reachable by updates is one (c06_reachable_sketches_are_valid_inputs), and
+     so is every union result (c06_cpc_union_refines returns Vin again), so unions of unions are covered.
+   * Domain: the RESULT satisfies 8 C < 475 K ([dom]); folding can only raise C/K, so every intermediate union is
+     then in the domain too (dom_fold_back).  Folding several dense sketches onto few rows can leave the domain:
+     the crate then builds a sketch with window offset > 56 (outside the property, as in C05).
+   * Not verified (trusted, see tools/props/C06.py): PairTable's slot layout, hence the order in which
+     walk_table_updating_sketch visits the source pairs (the theorems hold for EVERY order: the source table is an
+     arbitrary duplicate-free list).  merge is on one seed. *)
+From DS Require Import Base.Prelude Model.Cpc Model.CpcUnion Proofs.CpcBits Proofs.CpcSpec Proofs.CpcProofs Proofs.CpcInv
+  Proofs.CpcStep Proofs.CpcUpdate Proofs.CpcMain Proofs.CpcUnionSpec Proofs.CpcUnionLemmas Proofs.CpcUnionProofs
+  Proofs.CpcUnionLaws.
+From Coq Require Import Permutation.
 Open Scope N_scope.
-Example c06_placeholder : TS_FF = 255 /\ TS_FF2 = 255.
-Proof. split; reflexivity. Qed.
+
+(* The refinement theorem.  For every union lg_k and every sequence of valid input sketches (any lg_k, any
+   flavor) whose result is inside the domain: no panic; the union's lg_k and num_coupons() are those of the
+   Spec; to_sketch() yields a sketch s that is again a valid sketch (Vin) of exactly the Spec matrix:
+   build_bit_matrix s = the Spec rows, num_coupons = its popcount, offset = determine_correct_offset <= 56,
+   window present iff flavor > Sparse, first interesting column sound, validate() = true, and s is marked as
+   merged unless it is empty. *)
+Theorem c06_cpc_union_refines : forall lg0 l,
+  4 <= lg0 <= 26 -> Forall (fun x => Vin (fst (fst x)) (snd (fst x)) (snd x)) l ->
+  dom (uspec lg0 (ins_of l)) ->
+  exists u, union_of lg0 (map (fun x => fst (fst x)) l) = Ok u /\
+    u_lgk u = fst (uspec lg0 (ins_of l)) /\
+    union_num_coupons u = pop_rows (snd (uspec lg0 (ins_of l))) (Knat (fst (uspec lg0 (ins_of l)))) /\
+    exists s, union_to_sketch u = Ok s /\
+      Vin s (fst (uspec lg0 (ins_of l))) (snd (uspec lg0 (ins_of l))) /\
+      build_bit_matrix s = Ok (rows_of (snd (uspec lg0 (ins_of l))) (Knat (fst (uspec lg0 (ins_of l))))) /\
+      c_lgk s = fst (uspec lg0 (ins_of l)) /\
+      c_num s = pop_rows (snd (uspec lg0 (ins_of l))) (Knat (fst (uspec lg0 (ins_of l)))) /\
+      c_off s = determine_correct_offset (fst (uspec lg0 (ins_of l))) (c_num s) /\
+      c_off s <= 56 /\
+      (c_win s = [] <-> cpc_flavor s <= SPARSE) /\
+      fic_ok (fst (uspec lg0 (ins_of l))) s (snd (uspec lg0 (ins_of l))) /\
+      cpc_validate s = Ok true /\
+      (c_num s <> 0 -> c_merge s = true).
+Proof. exact cpc_union_refines. Qed.
+
+(* the step-by-step Spec is the closed form of the property text: smallest lg_k among the union and the
+   non-empty inputs, OR of the non-empty inputs folded to it *)
+Theorem c06_spec_closed_form : forall lg0 ins,
+  fst (uspec lg0 ins) = lgmin lg0 ins /\
+  mbelow (2 ^ lgmin lg0 ins) (snd (uspec lg0 ins)) (or_spec lg0 ins).
+Proof. exact uspec_closed. Qed.
+
+(* one update, for a union in any represented state (accumulator or bit matrix): reduce_k and the cases A-D *)
+Theorem c06_union_update_refines : forall u lg M si lgi Mi,
+  Urep u lg M -> Vin si lgi Mi ->
+  8 * pop_rows (snd (uspec_step (lg, M) (lgi, Mi))) (Knat (fst (uspec_step (lg, M) (lgi, Mi)))) <
+    475 * 2 ^ fst (uspec_step (lg, M) (lgi, Mi)) ->
+  exists u', union_update u si = Ok u' /\
+             Urep u' (fst (uspec_step (lg, M) (lgi, Mi))) (snd (uspec_step (lg, M) (lgi, Mi))).
+Proof. exact union_update_ok. Qed.
+
+(* to_sketch of any represented union state: the result is a valid sketch of the same matrix *)
+Theorem c06_cpc_union_result_wf : forall u lg M, Urep u lg M -> 8 * pop_rows M (Knat lg) < 475 * 2 ^ lg ->
+  exists s, union_to_sketch u = Ok s /\ Inv lg s M /\ (c_num s <> 0 -> c_merge s = true).
+Proof. exact union_to_sketch_ok. Qed.
+
+(* "marked as merged" does NOT hold for the result of a union that saw no coupons: to_sketch returns a fresh
+   CpcSketch (merge_flag false, HIP registers of an empty sketch); full statement: forall results, c_merge s = true *)
+Theorem c06_empty_result_merged_refuted :
+  exists u s, union_of 11 [] = Ok u /\ union_to_sketch u = Ok s /\ c_num s = 0 /\ c_merge s = false.
+Proof. exact union_empty_result_not_merged. Qed.
+
+(* a union in the BitMatrix state always holds at least 3K/32 coupons (the code relies on it silently:
+   to_sketch always builds a window) *)
+Theorem c06_union_bitmatrix_not_sparse : forall u lg M m, Urep u lg M -> u_st u = UMat m ->
+  3 * 2 ^ lg <= 32 * count_bits_set_in_matrix m.
+Proof. exact union_bitmatrix_not_sparse. Qed.
+
+(* commutativity and associativity: any reordering of the inputs gives the same lg_k, coupon count, matrix,
+   offset and flavor *)
+Theorem c06_cpc_union_order_irrelevant : forall lg0 l l',
+  4 <= lg0 <= 26 -> Forall (fun x => Vin (fst (fst x)) (snd (fst x)) (snd x)) l -> Permutation l l' ->
+  dom (uspec lg0 (ins_of l)) ->
+  exists u u' s s',
+    union_of lg0 (map (fun x => fst (fst x)) l) = Ok u /\ union_of lg0 (map (fun x => fst (fst x)) l') = Ok u' /\
+    union_to_sketch u = Ok s /\ union_to_sketch u' = Ok s' /\
+    u_lgk u' = u_lgk u /\ union_num_coupons u' = union_num_coupons u /\
+    build_bit_matrix s' = build_bit_matrix s /\ c_lgk s' = c_lgk s /\ c_num s' = c_num s /\ c_off s' = c_off s /\
+    cpc_flavor s' = cpc_flavor s.
+Proof. exact cpc_union_order_irrelevant. Qed.
+
+(* idempotence: an input fed a second time changes nothing *)
+Theorem c06_cpc_union_repetition_irrelevant : forall lg0 l x,
+  4 <= lg0 <= 26 -> Forall (fun x => Vin (fst (fst x)) (snd (fst x)) (snd x)) l -> In x l ->
+  dom (uspec lg0 (ins_of l)) ->
+  exists u u' s s',
+    union_of lg0 (map (fun x => fst (fst x)) l) = Ok u /\ union_of lg0 (map (fun x => fst (fst x)) (l ++ [x])) = Ok u' /\
+    union_to_sketch u = Ok s /\ union_to_sketch u' = Ok s' /\
+    u_lgk u' = u_lgk u /\ union_num_coupons u' = union_num_coupons u /\
+    build_bit_matrix s' = build_bit_matrix s /\ c_lgk s' = c_lgk s /\ c_num s' = c_num s /\ c_off s' = c_off s /\
+    cpc_flavor s' = cpc_flavor s.
+Proof. exact cpc_union_repetition_irrelevant. Qed.
+
+(* the same laws on the Spec itself *)
+Theorem c06_spec_order_irrelevant : forall lg0 ins ins', Permutation ins ins' ->
+  fst (uspec lg0 ins) = fst (uspec lg0 ins') /\
+  mbelow (2 ^ fst (uspec lg0 ins)) (snd (uspec lg0 ins)) (snd (uspec lg0 ins')).
+Proof. exact uspec_perm. Qed.
+
+Theorem c06_spec_idempotent : forall lg0 ins i, In i ins ->
+  fst (uspec lg0 (ins ++ [i])) = fst (uspec lg0 ins) /\
+  mbelow (2 ^ fst (uspec lg0 ins)) (snd (uspec lg0 (ins ++ [i]))) (snd (uspec lg0 ins)).
+Proof. exact uspec_idem. Qed.
+
+(* fold lemmas *)
+Theorem c06_fold_fold : forall l1 l2 l3 M, l3 <= l2 -> l2 <= l1 ->
+  mbelow (2 ^ l3) (mfold l2 l3 (mfold l1 l2 M)) (mfold l1 l3 M).
+Proof. exact mfold_fold. Qed.
+
+Theorem c06_fold_or : forall lf lt A B r, mfold lf lt (mor A B) r = mor (mfold lf lt A) (mfold lf lt B) r.
+Proof. exact mfold_or. Qed.
+
+(* C_folded >= C / f *)
+Theorem c06_fold_popcount : forall lf lt M, lt <= lf ->
+  pop_rows M (Knat lf) <= 2 ^ (lf - lt) * pop_rows (mfold lf lt M) (Knat lt).
+Proof. exact pop_fold'. Qed.
+
+(* every sketch reachable by updates (C05) is a valid union input *)
+Theorem c06_reachable_sketches_are_valid_inputs : forall lgk cs s,
+  4 <= lgk <= 26 -> Forall (valid lgk) cs -> 8 * distinct cs < 475 * 2 ^ lgk ->
+  cpc_run lgk cs = Ok s -> Vin s lgk (spec cs).
+Proof. exact cpc_run_vin. Qed.
+
+(* the two 0xFF literals of to_sketch, as translated on this run *)
+Theorem c06_to_sketch_literals : TS_FF = 255 /\ TS_FF2 = 255.
+Proof. exact (conj eq_refl eq_refl). Qed.
+
+(* non-vacuity: union (lg_k 6) of a pinned lg_k-5 sketch, an empty lg_k-4 sketch and a sparse lg_k-5 sketch;
+   the empty input does not lower lg_k (result lg_k 5), the union ends in the bit-matrix state,
+   23 coupons, and the result sketch reproduces the Spec matrix *)
+Definition c06_ex_s1 : list N := map (fun r => r * 64) (map N.of_nat (seq 0 20)) ++ [3 * 64 + 1; 3 * 64 + 9].
+Definition c06_ex_s3 : list N := [31 * 64 + 2; 3 * 64 + 1].
+
+Example c06_example :
+  exists s1 s2 s3,
+    cpc_run 5 c06_ex_s1 = Ok s1 /\ cpc_run 4 [] = Ok s2 /\ cpc_run 5 c06_ex_s3 = Ok s3 /\
+    let l := [(s1, 5, spec c06_ex_s1); (s2, 4, spec []); (s3, 5, spec c06_ex_s3)] in
+    Forall (fun x => Vin (fst (fst x)) (snd (fst x)) (snd x)) l /\
+    dom (uspec 6 (ins_of l)) /\ fst (uspec 6 (ins_of l)) = 5 /\
+    exists u s, union_of 6 [s1; s2; s3] = Ok u /\ union_num_coupons u = 23 /\
+                (exists m, u_st u = UMat m) /\
+                union_to_sketch u = Ok s /\ c_num s = 23 /\ c_merge s = true /\
+                build_bit_matrix s = Ok (rows_of (snd (uspec 6 (ins_of l))) 32).
+Proof.
+  eexists. eexists. eexists. split; [vm_compute; reflexivity|]. split; [vm_compute; reflexivity|]. split; [vm_compute; reflexivity|].
+  split.
+  { constructor; [|constructor; [|constructor; [|constructor]]]; cbn [fst snd].
+    - apply cpc_run_vin; [lia| |vm_compute; reflexivity|vm_compute; reflexivity].
+      unfold valid. repeat constructor; vm_compute; congruence.
+    - apply cpc_run_vin; [lia|constructor|vm_compute; reflexivity|vm_compute; reflexivity].
+    - apply cpc_run_vin; [lia| |vm_compute; reflexivity|vm_compute; reflexivity].
+      unfold valid. repeat constructor; vm_compute; congruence. }
+  split; [vm_compute; reflexivity|]. split; [vm_compute; reflexivity|].
+  eexists. eexists. split; [vm_compute; reflexivity|]. split; [vm_compute; reflexivity|].
+  split; [eexists; vm_compute; reflexivity|]. split; [vm_compute; reflexivity|].
+  split; [vm_compute; reflexivity|]. split; [vm_compute; reflexivity|]. vm_compute. reflexivity.
+Qed.
